@@ -451,8 +451,9 @@ func (c *checker) roundTrip(g *gridValue, codec string) {
 		diffWire(g.V, dv, "", &diffs)
 		if len(diffs) > 0 {
 			seen := map[string]bool{}
+			allKind, allShape := g.full()
 			for _, p := range diffs {
-				kind, shape := g.Kind[p], g.Shape[p]
+				kind, shape := allKind[p], allShape[p]
 				if kind == "" {
 					kind, shape = "structure", "structure"
 				}
